@@ -210,7 +210,7 @@ def mon_c12(sc, prof, pairs):
                 kind = "reserved" if len(w) > 2 else "capacity"
                 out.append(Failure(sc, prof, i["step"], f"{line}: a field array moved during the promised pushes ({i.get('pushed')} pushed)", f"C12:promise:moved:{kind}", {"I": i["raw"]}))
         if op in ("reserve", "reserve_exact", "shrink_to_fit") and (i["status"] != s["status"] or i.get("regs") != s.get("regs")):
-            out.append(Failure(sc, prof, i["step"], f"{line}: contents changed: {i.get('regs')} vs {s.get('regs')}", f"C12:{op}:contents", {"I": i["raw"], "S": s["raw"]}))
+            out.append(Failure(sc, prof, i["step"], f"{line}: status / contents differ from Vec<T>: soa {i['status']} {i.get('regs')} vs std {s['status']} {s.get('regs')}", f"C12:{op}:contents", {"I": i["raw"], "S": s["raw"]}))
     return out
 
 
